@@ -391,11 +391,17 @@ def main(argv=None):
         if not forbidden else 0
 
     # 2. cases: corpus first, then generated (or the single replayed case)
+    harness_err = None
     if args.replay:
         rep = json.load(open(args.replay, encoding='utf-8'))
         todo = [(c, True) for c in rep.get('cases', [])]
     else:
-        todo = [(c, True) for c in load_corpus(prop_id)] + [(c, False) for c in mod.cases(args.tier, rng)]
+        todo = [(c, True) for c in load_corpus(prop_id)]
+        try:
+            todo += [(c, False) for c in mod.cases(args.tier, rng)]
+        except Exception as exc:   # noqa  the harness cannot drive this implementation: correspondence is broken
+            harness_err = f'case generation/instrumentation failed: {type(exc).__name__}: {exc}\n' + \
+                traceback.format_exc()[-1500:]
 
     results = []
     for case, from_corpus in todo:
@@ -430,10 +436,9 @@ def main(argv=None):
     try:
         for case, text in mod.oracles(results):
             oracle_fail.append((case, text))
-    except Exception as exc:   # noqa
-        traceback.print_exc()
-        print(f'INCONCLUSIVE property={prop_id} oracle crashed: {type(exc).__name__}: {exc}')
-        return 2
+    except Exception as exc:   # noqa  an oracle that cannot read the implementation's outputs: correspondence broken
+        harness_err = (harness_err or '') + f'oracle crashed: {type(exc).__name__}: {exc}\n' + \
+            traceback.format_exc()[-1500:]
 
     # 5. triage
     findings = load_findings()
@@ -509,13 +514,13 @@ def main(argv=None):
             if len(shown) >= 5:
                 break
         exit_code = 1
-    elif broken_theorems or broken_corr or driver_err:
+    elif broken_theorems or broken_corr or driver_err or harness_err:
         payload = {'property': prop_id, 'kind': 'unproved', 'seed': seed, 'tier': args.tier,
                    'broken_proof_obligations': broken_theorems,
                    'broken_correspondence': [
                        {'case': r.case, 'impl': r.impl, 'model': r.model, 'impl_readable': show(r.impl),
                         'model_readable': show(r.model or '')} for r in broken_corr[:20]],
-                   'driver_error': driver_err,
+                   'driver_error': driver_err, 'harness_error': harness_err,
                    'build_log_tail': lean.build_log[-3000:],
                    'cases': [r.case for r in broken_corr[:20]],
                    'searched': f'{len(results)} cases through the property oracles and the governed correspondence; '
